@@ -482,8 +482,8 @@ class Builder:
                 self.steps.append(x.set(*ms))
             else:
                 e = elem_type(t)
-                if len(r[1]) > 1500 and all(m == r[1][0] for m in r[1]):
-                    one = self.build(e, r[1][0])
+                if len(r[1]) > 40 and all(m == r[1][0] for m in r[1]):
+                    one = self.build(e, r[1][0])            # the same instance many times (as in `[x] * n`)
                     ms = [one] * len(r[1])
                 else:
                     ms = [self.build(e, cr) for cr in r[1]]
